@@ -1586,6 +1586,8 @@ def balance_stoichiometry(
 
     if 0 in sol:
         raise ValueError("Superfluous species given.")
+    if any(x.is_number and x.is_nonpositive for x in sol):
+        raise ValueError("Failed to balance reaction: no positive solution")
     if underdetermined:
         if any(x == sympy.nan for x in sol):
             raise ValueError("Failed to balance reaction")
